@@ -101,20 +101,20 @@ theorem kclTerm_patched (kind : Kind) (s : K) (x : Ix → K) (k : Nat) (c : Cpt 
     have hJ : x (br m) = (vd x a b + (match kind, i0 with | .ivp, some i0 => l * i0 | _, _ => 0)) / indZ kind s l := by
       cases kind <;> simp [indZ] at hz
       · have := hlaw (m, _) (by simp [laws]; rfl)
-        simp [mutualDrop, lsum] at this
+        simp [mutualDrop, mutualIC, lsum] at this
         rw [eq_div_iff (by simp [indZ]; exact hz)]
         simp [indZ]
         linear_combination (-1 : K) * this
       · cases i0 with
         | none =>
           have := hlaw (m, _) (by simp [laws]; rfl)
-          simp [mutualDrop, lsum] at this
+          simp [mutualDrop, mutualIC, lsum] at this
           rw [eq_div_iff (by simp [indZ]; exact hz)]
           simp [indZ]
           linear_combination (-1 : K) * this
         | some i0 =>
           have := hlaw (m, _) (by simp [laws]; rfl)
-          simp [mutualDrop, lsum] at this
+          simp [mutualDrop, mutualIC, lsum] at this
           rw [eq_div_iff (by simp [indZ]; exact hz)]
           simp [indZ]
           linear_combination (-1 : K) * this
@@ -327,17 +327,17 @@ theorem volEq_law (kind : Kind) (s : K) (x : Ix → K) (c : Cpt K) (hok : MeshOk
       exact ⟨0, 0, rfl, by simp [through]; simpa using this.symm⟩
     | lap =>
       have := hlaw (m, _) (by simp [laws]; rfl)
-      simp [mutualDrop, lsum] at this
+      simp [mutualDrop, mutualIC, lsum] at this
       exact ⟨s * l, 0, rfl, by simp [through]; linear_combination (-1 : K) * this⟩
     | ivp =>
       cases i0 with
       | none =>
         have := hlaw (m, _) (by simp [laws]; rfl)
-        simp [mutualDrop, lsum] at this
+        simp [mutualDrop, mutualIC, lsum] at this
         exact ⟨s * l, 0, rfl, by simp [through]; linear_combination (-1 : K) * this⟩
       | some i0 =>
         have := hlaw (m, _) (by simp [laws]; rfl)
-        simp [mutualDrop, lsum] at this
+        simp [mutualDrop, mutualIC, lsum] at this
         exact ⟨s * l, -(l * i0), rfl, by simp [through]; linear_combination (-1 : K) * this⟩
   | V a b m v => simp [isV] at hv
   | _ => simp [MeshOk] at hok
